@@ -1,5 +1,190 @@
+import YProofs.Lemmas.SchedSweeps
+import YProofs.Lemmas.SchedChain
 import YProofs.Lemmas.TimeGrid
+/-!
+# C10 — TDVP conserves what it must and is exact on the full manifold (schedule / time-grid part)
+
+Model: `YModel/Sched.lean` (event traces of `_tdvp.py`, environment state machine of `_env.py`, exact rational time grid)
+and the generated `YModel/Consts.lean` (literal `s2`, 2nd/4th-order coefficient tables, shape of the step-count formula —
+regenerated from `yastn/tn/mps/_tdvp.py` by `gen/gen_consts.py` on every run).  Tie to the source: traces of REAL `tdvp_`
+runs are diffed exactly against `tdvpTrace`, sweep lengths / mid-times / step counts / reported times against the
+rational model (`harness/props/c10.py`).
+
+NOT proved (observed on the real code by the oracles): norm / energy conservation and exactness on the full manifold
+(Lubich–Oseledets), convergence order for time-dependent generators.
+-/
 namespace YModel.Sched
-/-- placeholder (replaced below) -/
-theorem c10_placeholder : (tdvpTrace .one 1 0 []).length = 1 := by decide
+
+/-! ## the half sweeps are overlap chains -/
+
+/-- **`half_sweep_overlap_chain`**, '1site': the forward half updates `f₁ b₁ f₂ … f_N` with `fᵢ` = site `i-1` (exponent
+`-u·dt/2`), `bᵢ` = the bond between consecutive sites (`+u·dt/2`); the backward half is the mirror image of such a chain. -/
+theorem half_sweep_overlap_chain_1site (N : Nat) (hN : 1 ≤ N) :
+    isChain 0 (N - 1) (updsOf N ((List.range N).flatMap (tdvp1Step N .last))) = true ∧
+    isChain 0 (N - 1) (mirror (updsOf N ((List.range N).reverse.flatMap (tdvp1Step N .first)))) = true := by
+  refine ⟨?_, ?_⟩
+  · have := chain_fwd1 N N 0 (by omega) hN
+    rwa [← List.range_eq_range'] at this
+  · exact isChainDown_reverse _ _ (Nat.le_refl _) _ _ (chain_bwd1 N N hN (Nat.le_refl _))
+
+/-- '2site': `fᵢ` = the pair `(i-1, i)`, `bᵢ` = the shared site `i` (backward one-site update), none after the last pair. -/
+theorem half_sweep_overlap_chain_2site (N : Nat) (hN : 2 ≤ N) :
+    isChain 0 (N - 1) (updsOf N ((List.range (N - 1)).flatMap (tdvp2Step N .last))) = true ∧
+    isChain 0 (N - 1) (mirror (updsOf N ((List.range (N - 1)).reverse.flatMap (tdvp2Step N .first)))) = true := by
+  refine ⟨?_, ?_⟩
+  · have := chain_fwd2 N (N - 1) 0 (by omega) (by omega)
+    rwa [← List.range_eq_range'] at this
+  · exact isChainDown_reverse _ _ (Nat.le_refl _) _ _ (chain_bwd2 N (N - 1) (by omega))
+
+/-- '12site' under **any** outcome sequence `o` of `enlarge_bond` (and any continuation `o'` for the way back): both
+halves are overlap chains covering `0 … N-1` by one- and two-site intervals; every backward update acts exactly on the
+intersection of its neighbours (a shared site, or the bond between adjacent intervals); backward updates of a central
+block outside the chain are skipped. -/
+theorem half_sweep_overlap_chain_12site (N : Nat) (hN : 1 ≤ N) (o o' : List Bool) :
+    isChain 0 (N - 1) (updsOf N (tdvp12Fwd N N false o).1) = true ∧
+    isChain 0 (N - 1) (mirror (updsOf N (tdvp12Bwd N N false o').1)) = true := by
+  refine ⟨?_, ?_⟩
+  · simpa using chain_fwd12 N N 0 false o (by omega) hN (by intro h; cases h)
+  · have := chain_bwd12 N N false o' hN (Nat.le_refl _)
+    exact isChainDown_reverse _ _ (Nat.le_refl _) _ _ (by simpa using this)
+
+/-- the sweeps are exactly these halves followed by environment bookkeeping without local updates -/
+theorem sweeps_are_two_halves (N : Nat) (o : List Bool) :
+    tdvp1Sweep N = (List.range N).flatMap (tdvp1Step N .last) ++ (List.range N).reverse.flatMap (tdvp1Step N .first) ++ [.upd 0 .first] ∧
+    tdvp2Sweep N = (List.range (N - 1)).flatMap (tdvp2Step N .last) ++ (List.range (N - 1)).reverse.flatMap (tdvp2Step N .first)
+      ++ [.clr [0], .upd 0 .first] ∧
+    (tdvp12Sweep N o).1 = (tdvp12Fwd N N false o).1 ++ (tdvp12Bwd N N false (tdvp12Fwd N N false o).2).1 ++ [.clr [0], .upd 0 .first] :=
+  ⟨rfl, rfl, rfl⟩
+
+/- palindromy of '1site'/'2site' (second half = exact reverse of the first), full statement, checked on instances below:
+   theorem sweep_palindromic_1site (N) : updsOf N (bwd half) = (updsOf N (fwd half)).reverse -/
+
+/-! ## environment freshness -/
+
+/-- **`tdvp_reads_fresh`**: for every `N ≥ 1`, method ('1site', '2site', '12site' under any `enlarge_bond` oracle), number
+of sweeps sharing one environment, with and without precompute: no event reads a missing or stale environment, no site is
+updated while a central block exists, `_update_C` acts on the block left by the preceding `orthogonalize_site_`. -/
+theorem tdvp_reads_fresh (N : Nat) (hN : 1 ≤ N) (pre : Bool) (m : Method) (k : Nat) (o : List Bool) :
+    (exec N pre (init N true) (tdvpTrace m N k o)).2 = true :=
+  (tdvpTrace_ok N pre hN m k o _ (init_S N pre true)).1
+
+/-- after every sweep: no central block, all right environments and the left edge fresh (what the next sweep assumes) -/
+theorem tdvp_exit_state (N : Nat) (hN : 1 ≤ N) (pre : Bool) (m : Method) (k : Nat) (o : List Bool) :
+    let st := (exec N pre (init N true) (tdvpTrace m N k o)).1
+    st.pC = none ∧ ∀ j, j ≤ N → FreshK N st.ver st.F (.R j) := by
+  have h := (tdvpTrace_ok N pre hN m k o _ (init_S N pre true)).2
+  exact ⟨h.2, fun j hj => h.1.r j (by omega) hj⟩
+
+/-! ## time grid (exact rationals; `T = t1 - t0`, `eps = 10⁻¹²`) -/
+
+/-- **`steps_spec`**: `steps = int((t1-t0-1e-12)//dt)+1` is `⌊(T-ε)/dt⌋+1`; it is `≥ 1` (for `T ≥ ε`), `steps·ds = T`
+exactly (the snapshot is reached exactly), `steps` is the least `k` with `k·dt > T-ε`, hence `ds < dt + ε/steps`, and
+`ds ≤ dt` unless `T` lies within `ε` above a multiple of `dt` (the unconditional `ds ≤ dt` is FALSE: `T=1, dt=1-5·10⁻¹³`);
+when `dt` divides `T` the step is not changed. -/
+theorem steps_spec (T dt : Q) (hT : 0 < T.den) (hd : 0 < dt.den) (hn : 0 < dt.num) (h : eps ≤ T.toRat) :
+    stepsQ T dt = ⌊(T.toRat - eps) / dt.toRat⌋ + 1 ∧ 1 ≤ stepsQ T dt ∧
+    (stepsQ T dt : ℚ) * (dsQ T dt).toRat = T.toRat ∧
+    (((stepsQ T dt : ℚ) - 1) * dt.toRat ≤ T.toRat - eps ∧ T.toRat - eps < (stepsQ T dt : ℚ) * dt.toRat) ∧
+    (∀ k : ℤ, T.toRat - eps < (k : ℚ) * dt.toRat → stepsQ T dt ≤ k) ∧
+    (dsQ T dt).toRat < dt.toRat + eps / (stepsQ T dt : ℚ) ∧
+    ((¬ ∃ k : ℤ, (k : ℚ) * dt.toRat < T.toRat ∧ T.toRat < (k : ℚ) * dt.toRat + eps) → (dsQ T dt).toRat ≤ dt.toRat) ∧
+    (∀ k : ℤ, 1 ≤ k → T.toRat = k * dt.toRat → eps < dt.toRat → stepsQ T dt = k ∧ (dsQ T dt).toRat = dt.toRat) :=
+  ⟨stepsQ_eq_floor T dt hT hd hn, steps_pos T dt hT hd hn h, steps_mul_ds T dt hT hd hn h, steps_bracket T dt hT hd hn,
+   fun k hk => steps_minimal T dt hT hd hn k hk, ds_lt T dt hT hd hn h, fun hg => ds_le_dt T dt hT hd hn h hg,
+   fun k hk hT' hb => ⟨steps_exact_of_dvd T dt hT hd hn k hk hT' hb, ds_eq_dt_of_dvd T dt hT hd hn k hk hT' hb⟩⟩
+
+/-- the formula in the source has the modelled shape (regenerated): `int((t1 - t0 - EPS) // dt) + 1`, `EPS = 10⁻¹²`,
+`ds = (t1 - t0)/steps`, `t = t + ds` -/
+theorem steps_source_shape : Consts.stepsShape = "floor" ∧ Consts.dsShape = "T/steps" ∧ Consts.advanceShape = "t+ds" ∧
+    Consts.epsDen = 10 ^ 12 := source_shapes
+
+/-- **`fourth_order_identities`** for EVERY `s` (coefficient tables regenerated from the source): the five sub-step
+lengths are `s, s, 1-4s, s, s`, they sum to one and are palindromic; the five mid-times are the midpoints of the consecutive
+sub-intervals (and mirror-symmetric); the 2nd-order step is one sweep of length `ds` at the midpoint. -/
+theorem fourth_order_identities (s : ℚ) :
+    table4.map (fun p => p.2.evalRat s) = [s, s, 1 - 4 * s, s, s] ∧
+    (table4.map (fun p => p.2.evalRat s)).sum = 1 ∧
+    (table4.map (fun p => p.2.evalRat s)).reverse = table4.map (fun p => p.2.evalRat s) ∧
+    (∀ i, i < 5 → (table4.map (fun p => p.1.evalRat s)).getD i 0 =
+      ((table4.map (fun p => p.2.evalRat s)).take i).sum + (table4.map (fun p => p.2.evalRat s)).getD i 0 / 2) ∧
+    (∀ i, i < 5 → (table4.map (fun p => p.1.evalRat s)).getD i 0 + (table4.map (fun p => p.1.evalRat s)).getD (4 - i) 0 = 1) ∧
+    table2.map (fun p => (p.1.evalRat s, p.2.evalRat s)) = [(1 / 2, 1)] :=
+  ⟨fourth_weights s, fourth_sum_one s, fourth_palindromic s, fun i hi => fourth_mid_is_midpoint s i hi,
+   fun i hi => fourth_mids_mirror s i hi, second_table s⟩
+
+/-- **`s2_bound`**: the literal in the source satisfies the 4th-order condition `4 s³ + (1-4s)³ = 0` to `10⁻¹⁹` (even
+`10⁻²⁰`), lies in `(0, 1/2)`, and is the correctly rounded 20-digit root (changing its last digit breaks this file). -/
+theorem s2_literal :
+    |4 * s2.toRat ^ 3 + (1 - 4 * s2.toRat) ^ 3| < 1 / 10 ^ 19 ∧
+    |4 * s2.toRat ^ 3 + (1 - 4 * s2.toRat) ^ 3| < 1 / 10 ^ 20 ∧ 0 < s2.toRat ∧ s2.toRat < 1 / 2 :=
+  ⟨s2_bound, s2_bound_tight, s2_range.1, s2_range.2⟩
+
+/-- the driver's integer-pair evaluation of the tables agrees with the rational one used in the theorems -/
+theorem driver_subSteps_exact :
+    (subSteps table4 s2).map (fun q => (q.1.toRat, q.2.toRat)) = table4.map (fun p => (p.1.evalRat s2.toRat, p.2.evalRat s2.toRat)) :=
+  subSteps_toRat table4 s2 s2_den_ne_zero table4_dens
+
+/-! ## Krylov-size memory -/
+
+/-- a local problem: one site, two neighbouring sites, or a bond -/
+def Upd.problem : Upd → Nat × Nat × Nat
+  | .site lo hi _ => (0, lo, hi)
+  | .bond m _ => (1, m, m)
+
+def Upd.valid : Upd → Prop
+  | .site lo hi _ => hi = lo ∨ hi = lo + 1
+  | .bond m _ => 1 ≤ m
+
+/-- **`ncv_keys_disjoint`**: the dictionary keys under which `_update_A` (`n`), `_update_C` (`(m-1, m)`) and `_update_AA`
+(`(n+1, n)`) remember their Krylov size are injective in the local problem: no two different problems share a key, so each
+read returns the value written by the previous update of the same problem. -/
+theorem ncv_keys_disjoint (u v : Upd) (hu : u.valid) (hv : v.valid) (h : ncvKey u = ncvKey v) : u.problem = v.problem := by
+  cases u with
+  | site a b s =>
+    cases v with
+    | site c d t =>
+      simp only [ncvKey, Upd.problem] at *
+      split at h <;> split at h <;> simp_all
+    | bond m t =>
+      simp only [ncvKey, Upd.valid] at *
+      split at h
+      · simp at h
+      · simp only [NcvKey.tup.injEq] at h; omega
+  | bond m s =>
+    cases v with
+    | site c d t =>
+      simp only [ncvKey, Upd.valid] at *
+      split at h
+      · simp at h
+      · simp only [NcvKey.tup.injEq] at h; omega
+    | bond m' t =>
+      simp only [ncvKey, Upd.problem, NcvKey.tup.injEq] at *
+      have : m = m' := by omega
+      subst this; rfl
+
+/-! ## non-vacuity -/
+
+example : updsOf 4 (tdvp12Fwd 4 4 false [true, false, false, true]).1 =
+    [.site 0 1 .minus, .bond 2 .plus, .site 2 2 .minus, .bond 3 .plus, .site 3 3 .minus] := by decide
+
+example : isChain 0 3 [.site 0 1 .minus, .site 1 1 .plus, .site 1 2 .minus, .bond 3 .plus, .site 3 3 .minus] = true := by decide
+/-- a backward update on the wrong bond / with the wrong sign is not a chain -/
+example : isChain 0 2 [.site 0 0 .minus, .bond 2 .plus, .site 1 1 .minus, .bond 2 .plus, .site 2 2 .minus] = false := by decide
+example : isChain 0 1 [.site 0 0 .minus, .bond 1 .minus, .site 1 1 .minus] = false := by decide
+
+/-- palindromy on instances -/
+example : updsOf 5 ((List.range 5).reverse.flatMap (tdvp1Step 5 .first)) = (updsOf 5 ((List.range 5).flatMap (tdvp1Step 5 .last))).reverse := by
+  decide
+example : updsOf 5 ((List.range 4).reverse.flatMap (tdvp2Step 5 .first)) = (updsOf 5 ((List.range 4).flatMap (tdvp2Step 5 .last))).reverse := by
+  decide
+
+set_option maxRecDepth 20000 in
+example : (exec 3 true (init 3 true) (tdvpTrace .onetwo 3 2 [true, false, true, true, false, true, false])).2 = true := by decide
+
+/-- the final `update_env_(first)` is needed: without it the next sweep reads a stale `F[(0,-1)]`… -/
+example : (exec 2 false (init 2 true) (setupFirst 2 ++ (List.range 2).flatMap (tdvp1Step 2 .last)
+    ++ (List.range 2).reverse.flatMap (tdvp1Step 2 .first) ++ [.meas 0])).2 = false := by decide
+
+example : stepsQ ⟨1, 1⟩ ⟨1, 4⟩ = 4 ∧ stepsQ ⟨1, 1⟩ ⟨3, 10⟩ = 4 ∧ stepsQ ⟨1, 1⟩ ⟨1999999999999, 2000000000000⟩ = 1 := by decide
+
 end YModel.Sched
